@@ -352,15 +352,18 @@ func (f *STFS) MkdirAll(path string, perm os.FileMode) error {
 	f.ioLock.Lock()
 	defer f.ioLock.Unlock()
 
-	parts := filepath.SplitList(path)
+	// Create every missing prefix of the path, starting at the top
 	currentPath := ""
+	if strings.HasPrefix(path, "/") {
+		currentPath = "/"
+	}
 
-	for _, part := range parts {
-		if currentPath == "" {
-			currentPath = part
-		} else {
-			currentPath = filepath.Join(currentPath, part)
+	for _, part := range strings.Split(path, "/") {
+		if part == "" {
+			continue
 		}
+
+		currentPath = filepath.Join(currentPath, part)
 
 		if hdr, err := inventory.Stat(
 			f.metadata,
